@@ -161,7 +161,7 @@ func (s *sim) monQuiescent() {
 				storedNet[sv.Transaction.ReceiverAddress].Add(storedNet[sv.Transaction.ReceiverAddress], valBig(sv.Transaction.Spice))
 			}
 			for _, v := range confirmed {
-				if _, live := vw.live[v.Hash]; !live || !v.Transaction.IsSpiceTransfer() || len(vw.inb[v.Hash]) == 0 {
+				if _, live := vw.live[v.Hash]; !live || !v.Transaction.IsSpiceTransfer() || (v.Transaction.IssuerAddress == snap.Genesis && v.LeftParentHash == [32]byte{}) {
 					continue
 				}
 				in, out := flows(v.Transaction.IssuerAddress, vw.history(v.Hash))
